@@ -51,6 +51,10 @@ def main(tier, seed):
                         m_.owner = hosts[0]
                         hosts[0].methods.append(m_)
                     tooltier.emit_rust.assign_abi_names(prog)
+            if i % 50 == 9 and b in ("dart", "kotlin"):
+                # directed probe (known finding F53): a type named like a core type of the target language
+                en_ = tooltier.spec.Enum("Object", [("Va", None), ("Vb", None)])
+                prog.modules[0].items.append(en_)
             if i % 4 == 3 and tooltier.add_traits(prog, random.Random("c15tr/%s/%s/%s" % (seed, i, b)), b):
                 tooltier.emit_rust.assign_abi_names(prog)
             prods = tooltier.prog_productions(prog)
